@@ -799,7 +799,7 @@ pub fn run_overlap_grammar(g0: &AG, wd: &Workdir, rep: &mut Rep, rng: &mut crate
                 let j = (k + 1 + rng.below(g.terms.len() - 1)) % g.terms.len();
                 g.terms[j].rec = Rec::Lit("*".into());
             }
-            (g, *rng.pick(&[2u8, 3, 3, 4, 6]))
+            (g, *rng.pick(&[2u8, 3, 3, 4, 6, 7]))
         }
     };
     rep.count("grammars_generated", 1);
@@ -1129,7 +1129,7 @@ pub fn main(a: &Args) {
             rep.count("grammars_with_non_ascii_multiline_literals", 1);
         }
         // a quarter of the C07/C12/C13 grammars get a user Layout rule (whitespace / comments / nested comments, six shapes)
-        let family = if (prop == "C13" || prop == "C12" || prop == "C07") && rng.chance(0.25) { rng.range(1, 6) as u8 } else { 0 };
+        let family = if (prop == "C13" || prop == "C12" || prop == "C07") && rng.chance(0.25) { rng.range(1, 7) as u8 } else { 0 };
         run_grammar(&g, "random_bnf", &wd, &mut rep, prop, maxlen, &mut rng, family);
     }
     rep.finish();
